@@ -243,6 +243,8 @@ h1 : seed , h2 : seed , total : 0 , buf : [ 0 ;
 
     fn finish128 ( & self ) -> ( r : ( u64 , u64 ) ) requires self . buf_len < 16 , self . len ( ) <= u64 :: MAX , ensures
 /*@C16.m_digest*/ forall | seed : u64 , d : Seq < u8 > | # [ trigger ] self . represents ( seed , d ) ==> r == murmur3_x64_128 ( seed , d ) , {
+hide ( vstd :: wrapping :: u64_specs :: wrapping_mul ) ;
+hide ( vstd :: wrapping :: u64_specs :: wrapping_add ) ;
 let mut h1 = self . h1 ;
 let mut h2 = self . h2 ;
 let total = self . total + self . buf_len as u64 ;
@@ -297,6 +299,8 @@ lemma_digest ( * self , seed , d ) ;
 
     fn update ( & mut self , mut k1 : u64 , mut k2 : u64 ) requires old ( self ) . total <= u64 :: MAX - 16 ensures
 /*@C16.m_block*/ ( final ( self ) . h1 , final ( self ) . h2 ) == block_step ( ( old ( self ) . h1 , old ( self ) . h2 ) , k1 , k2 ) , final ( self ) . total == old ( self ) . total + 16 , final ( self ) . buf == old ( self ) . buf , final ( self ) . buf_len == old ( self ) . buf_len , {
+hide ( vstd :: wrapping :: u64_specs :: wrapping_mul ) ;
+hide ( vstd :: wrapping :: u64_specs :: wrapping_add ) ;
 proof {
 reveal ( block_step ) ;
 }
@@ -382,6 +386,7 @@ lemma_block_iter ( ( pre . h1 , pre . h2 ) , st , bytes @ , done , base , i as i
 proof {
 assert ( self . total - pre . total == 16 * ( base + blocks ) ) ;
 assert ( ( ( self . total - pre . total ) / 16 ) as nat == base + blocks as nat ) ;
+let l = bytes . len ( ) ; assert ( l & 15 == l % 16 ) by ( bit_vector ) ;
 }
 let len = bytes . len ( ) % 16 ;
 if len > 0 {
@@ -403,6 +408,8 @@ lemma_represents_after ( pre , * self , all , seed , d ) ;
 
 fn fmix64 ( mut k : u64 ) -> ( r : u64 ) ensures
 /*@C16.m_fmix*/ r == fmix64_spec ( k ) , {
+hide ( vstd :: wrapping :: u64_specs :: wrapping_mul ) ;
+hide ( vstd :: wrapping :: u64_specs :: wrapping_add ) ;
 proof {
 reveal ( fmix64_spec ) ;
 }
